@@ -10,6 +10,9 @@ Sections
              __add__, __rmul__, the z_score clip; scipy tails as oracles; F row-space invariance, F = t^2,
              scale invariance, monotone finite z in the extreme tails; the two implementations agree.
   results    models.model.LikelihoodModelResults.Tcontrast / Fcontrast / t / vcov on integer designs.
+  grid       labs.glm contrasts / glm(Y, X, axis) on voxel arrays of every shape class (flat, square, rectangular,
+             cube, box, singleton axes; time axis anywhere): equal to the flat evaluation, exact first principles,
+             and the whole-grid conjunction statistic through ModelGrid.g_tmin_grid.
 """
 import math
 from fractions import Fraction
